@@ -22,7 +22,8 @@ def run_case(run, drv, files, pl, single, tag):
         for kind in ("a2", "v2", "a3", "hy"):
             out = os.path.join(box, kind + ".torrent")
             try:
-                metas[kind] = impl.create(kind, root, out, piece_length=pl)
+                spelled, prog = cr.variant(run.rng, root, single)
+                metas[kind] = impl.create(kind, spelled, out, piece_length=pl, progress=prog)
                 cr.ask_createfull(drv, ("createfull", dict(case, creator=kind), metas[kind]), kind,
                                   files, pl, single, name, metas[kind])
             except Exception as exc:
